@@ -314,6 +314,70 @@ theorem ldlt_spd (A : Matrix ℝ) (hsq : A.rows = A.columns)
     rwa [Matrix.IsHermitian, Matrix.conjTranspose_eq_transpose_of_trivial] at this
   exact ⟨L, D, h, h2, h3, h4, h5, h6, h9 hsym⟩
 
+/-- **Completeness of LDLᵀ (explicit factors), any field, all sizes**: if the square input is
+    `L·diag(d)·Lᵀ` for a unit lower triangular `L` and a diagonal `d` without zeros, the model is
+    present and returns exactly `L` and `diag(d)` (so the factorisation is unique, and present on
+    every symmetric input whose leading principal minors do not vanish). -/
+theorem ldlt_complete {K : Type} [Field K] [NumOrd K]
+    (heq : ∀ a b : K, NumOrd.eq a b = true ↔ a = b) (A : Matrix K) (hsq : A.rows = A.columns)
+    (Lm : _root_.Matrix (Fin A.rows) (Fin A.rows) K) (d : Fin A.rows → K)
+    (hlow : ∀ i j, i < j → Lm i j = 0) (hone : ∀ i, Lm i i = 1) (hd : ∀ i, d i ≠ 0)
+    (hA : toMat A.rows A.rows A = Lm * Matrix.diagonal d * Lm.transpose) :
+    ∃ L D, ldlt A = some (L, D) ∧ Shaped A.rows A.rows L ∧ Shaped A.rows A.rows D ∧
+      toMat A.rows A.rows L = Lm ∧ toMat A.rows A.rows D = Matrix.diagonal d := by
+  let ℓ : ℕ → ℕ → K := fun a b =>
+    if h : a < A.rows ∧ b < A.rows then Lm ⟨a, h.1⟩ ⟨b, h.2⟩ else if a = b then 1 else 0
+  let dd : ℕ → K := fun a => if h : a < A.rows then d ⟨a, h⟩ else 1
+  have hℓ : ∀ (a b : Fin A.rows), ℓ a b = Lm a b := by
+    intro a b; simp only [ℓ]; rw [dif_pos ⟨a.isLt, b.isLt⟩]
+  have hdd : ∀ (a : Fin A.rows), dd a = d a := by
+    intro a; simp only [dd]; rw [dif_pos a.isLt]
+  have hlow' : ∀ a b, a < b → ℓ a b = 0 := by
+    intro a b hab
+    simp only [ℓ]
+    split
+    · next h => exact hlow ⟨a, h.1⟩ ⟨b, h.2⟩ hab
+    · rw [if_neg (by omega)]
+  have hone' : ∀ a, ℓ a a = 1 := by
+    intro a
+    simp only [ℓ]
+    split
+    · next h => exact hone ⟨a, h.1⟩
+    · simp
+  have hd' : ∀ a, a < A.rows → dd a ≠ 0 := by
+    intro a ha
+    have := hdd ⟨a, ha⟩
+    simp only [] at this
+    rw [this]; exact hd _
+  have hA' : ∀ a b, a < A.rows → b ≤ a →
+      get A a b = ∑ k ∈ range A.rows, ℓ a k * dd k * ℓ b k := by
+    intro a b ha hba
+    have hb : b < A.rows := by omega
+    have h1 := congrFun (congrFun hA ⟨a, ha⟩) ⟨b, hb⟩
+    rw [toMat_apply, Matrix.mul_apply] at h1
+    rw [h1, ← Fin.sum_univ_eq_sum_range (fun k => ℓ a k * dd k * ℓ b k) A.rows]
+    apply Finset.sum_congr rfl
+    intro k _
+    rw [Matrix.mul_diagonal, Matrix.transpose_apply, ← hℓ ⟨a, ha⟩ k, ← hℓ ⟨b, hb⟩ k, ← hdd k]
+  obtain ⟨L, D, h1, h2, h3, h4, h5⟩ := ldlt_complete_aux heq hsq hlow' hone' hd' hA'
+  refine ⟨L, D, h1, h2, h3, ?_, ?_⟩
+  · ext i j
+    rw [toMat_apply, h4 i j i.isLt j.isLt, hℓ]
+  · ext i j
+    rw [toMat_apply, h5 i j i.isLt j.isLt, Matrix.diagonal_apply]
+    by_cases hij : i = j
+    · rw [if_pos (by rw [hij]), if_pos hij, hdd]
+    · rw [if_neg (fun h => hij (Fin.ext h)), if_neg hij]
+
+/-- Non-vacuity (over ℚ): `[[2,4],[4,3]] = L·diag(2,−5)·Lᵀ` with `L = [[1,0],[2,1]]`. -/
+example : toMat 2 2 (⟨[2, 4, 4, 3], 2, 2⟩ : Matrix ℚ)
+    = (!![1, 0; 2, 1] : _root_.Matrix (Fin 2) (Fin 2) ℚ) * Matrix.diagonal ![2, -5]
+      * (!![1, 0; 2, 1] : _root_.Matrix (Fin 2) (Fin 2) ℚ).transpose := by
+  ext i j
+  fin_cases i <;> fin_cases j <;>
+    simp [toMat, Decomp.get, EasyMl.Matrix.getIndex, Matrix.mul_apply, Fin.sum_univ_two,
+      Matrix.vecMul, dotProduct, Matrix.diagonal_apply] <;> norm_num
+
 /-- **Absence of LDLᵀ ⇔ non-square input or a zero pivot.**  The model is absent exactly when
     the input is not square or when, with the columns before `j` computed, the `j`-th pivot
     `A[j,j] − Σ_{k<j} L[j,k]²·D[k,k]` is zero. -/
